@@ -3,8 +3,8 @@
    runs EVERY order of the collection (or the listed orders) on the real classes, and records after every single
    insertion whether it raised UPConflictingEffectsException and the bookkeeping attributes (_effects,
    _fluents_assigned, _fluents_inc_dec, _simulated_effect(s)) of every watched time point.  [ok] recomputes the
-   same trace with the model and compares everything (observations travel as one number per insertion, see
-   [enc_step]). *)
+   same trace with the model and compares everything (observations travel as one number per insertion order,
+   see [enc_order]). *)
 From Coq Require Import List ZArith NArith QArith Bool.
 Import ListNotations.
 Require Import UPV.Model.Conflicts.
@@ -25,11 +25,12 @@ Record case := Case {
   c_pre : list (N * nat);          (* history before the collection: (time point, member index) *)
   c_t : N;                         (* time point of the collection *)
   c_items : list nat;              (* the collection *)
-  c_orders : list (list nat);      (* [] = all permutations of c_items in index-lexicographic order (the order of
-                                      itertools.permutations); otherwise exactly these insertion orders *)
+  c_orders : list (list nat);      (* [] = all DISTINCT permutations of c_items, in the order of first occurrence in
+                                      the index-lexicographic enumeration (itertools.permutations); otherwise
+                                      exactly these insertion orders *)
   c_watch : list N;                (* time points whose bookkeeping is recorded *)
   c_values : list value;           (* table of the value expressions that occur (a value is sent as its index) *)
-  c_obs : list (list N)            (* per order, per insertion: [enc_step] of (raised?, snapshots of the watched
+  c_obs : list N                   (* per order: [enc_order] of the per-insertion (raised?, snapshots of the watched
                                       points) as observed on the implementation *)
 }.
 
@@ -93,8 +94,11 @@ Fixpoint trace_timed (watch : list N) (m : timed) (l : list (N * item)) : list (
 
 Definition is_sim (i : item) : bool := match i with ISim _ => true | IEff _ => false end.
 
+Definition dedup_first (ps : list (list nat)) : list (list nat) :=
+  fold_left (fun acc o => if existsb (list_eqb Nat.eqb o) acc then acc else acc ++ [o]) ps [].
+
 Definition orders_of (c : case) : list (list nat) :=
-  match c_orders c with [] => perms (c_items c) | os => os end.
+  match c_orders c with [] => dedup_first (perms (c_items c)) | os => os end.
 
 Definition model_obs (c : case) : list (list (bool * list snap)) :=
   let u := c_universe c in
@@ -120,8 +124,9 @@ Definition step_eqb (a b : bool * list snap) : bool :=
 
 (* ---- compact transport of observations: one number per insertion.
    A step is flattened to a list of digits (length-prefixed lists, so the flattening is injective), the digits must
-   all be < 64 (checked: [digits_ok]), and the list is read as a base-64 numeral with a leading 1.  The harness
-   computes the same number from the attributes of the real objects; equal numbers <=> equal steps. *)
+   all be < 64 (checked: [digits_ok]), and the digits of all steps of one insertion order are read as one base-64
+   numeral with a leading 1 ([enc_order]).  The harness computes the same number from the attributes of the real
+   objects; equal numbers <=> equal traces (positional notation with a leading non-zero digit is injective). *)
 Definition base : N := 64.
 
 Fixpoint vcode_from (k : N) (tbl : list value) (v : value) : N :=
@@ -149,32 +154,28 @@ Definition step_digits (tbl : list value) (st : bool * list snap) : list N :=
   (if fst st then 1%N else 0%N) :: flat_map (snap_digits tbl) (snd st).
 
 Definition digits_ok (ds : list N) : bool := forallb (fun d => (d <? base)%N) ds.
-Definition numeral (ds : list N) : N := fold_left (fun acc d => (acc * base + d)%N) ds 1%N.
 
-(* 0 is never a valid numeral (they start with the digit 1), so an invalid model step can never equal an observation *)
-Definition enc_step (tbl : list value) (st : bool * list snap) : N :=
-  let ds := step_digits tbl st in if digits_ok ds then numeral ds else 0%N.
+(* the digits d1..dk as the number d1*64^(k-1) + ... + dk *)
+Definition num0 (ds : list N) : N := fold_left (fun acc d => (N.shiftl acc 6 + d)%N) ds 0%N.
 
-Definition model_enc (c : case) : list (list N) := map (map (enc_step (c_values c))) (model_obs c).
+(* one insertion order = the concatenation of the digits of its steps, read in base 64 after a leading digit 1
+   (computed step by step: acc * 64^|ds| + num0 ds).  0 is never a valid numeral, so a model trace with an invalid
+   digit can never equal an observation. *)
+Definition enc_order (tbl : list value) (steps : list (bool * list snap)) : N :=
+  let dss := map (step_digits tbl) steps in
+  if forallb digits_ok dss
+  then fold_left (fun acc ds => (N.shiftl acc (6 * N.of_nat (length ds)) + num0 ds)%N) dss 1%N
+  else 0%N.
+
+Definition model_enc (c : case) : list N := map (enc_order (c_values c)) (model_obs c).
 
 Definition ok (c : case) : bool :=
-  well_formed c && list_eqb (list_eqb N.eqb) (model_enc c) (c_obs c).
+  well_formed c && list_eqb N.eqb (model_enc c) (c_obs c).
 
-(* injectivity of the transport on valid digit lists of equal length is what makes "equal numbers" mean "equal steps" *)
-Lemma numeral_inj_same_length : forall a b acc acc',
-  length a = length b -> digits_ok a = true -> digits_ok b = true ->
-  fold_left (fun x d => (x * base + d)%N) a acc = fold_left (fun x d => (x * base + d)%N) b acc' ->
-  acc = acc' /\ a = b.
-Proof.
-  induction a as [|x a IH]; intros [|y b] acc acc' HL Ha Hb H; simpl in *; try discriminate; [auto|].
-  apply andb_true_iff in Ha, Hb. destruct Ha as [Hx Ha], Hb as [Hy Hb].
-  apply N.ltb_lt in Hx, Hy.
-  destruct (IH b _ _ (eq_add_S _ _ HL) Ha Hb H) as [E ->].
-  assert (acc = acc' /\ x = y) as [-> ->]; [|auto].
-  unfold base in *.
-  assert (E1 : ((acc * 64 + x) / 64 = (acc' * 64 + y) / 64)%N) by (rewrite E; reflexivity).
-  assert (E2 : ((acc * 64 + x) mod 64 = (acc' * 64 + y) mod 64)%N) by (rewrite E; reflexivity).
-  rewrite !N.div_add_l, !(N.div_small _ 64) , !N.add_0_r in E1 by (try assumption; discriminate).
-  rewrite !(N.add_comm (_ * 64)), !N.mod_add, !N.mod_small in E2 by (try assumption; discriminate).
-  auto.
-Qed.
+(* fast literals for the (large) observation numbers: the standard N notation converts decimal digits inside Coq,
+   this one lets the parser build the binary number *)
+Definition n_of_Z (z : Z) : option N := match z with Zneg _ => None | _ => Some (Z.to_N z) end.
+Definition n_to_Z (n : N) : Z := Z.of_N n.
+Declare Scope c24_scope.
+Delimit Scope c24_scope with c24.
+Number Notation N n_of_Z n_to_Z : c24_scope.
